@@ -232,3 +232,147 @@ def _sum_safe_result(self, ex, a):
 
 
 type(REGISTRY["y0.dsl.Sum.safe"]).result = _sum_safe_result
+
+
+# ------------------------------------------------------------------------------------------------ Sum.safe / marginalize: deductive side
+# (the run-time sampler / judge registered above stay as the CPython cross-check)
+def _ranges_set(ex, v):
+    from y0vc.contract import as_nodes
+    return as_nodes(ex, v)
+
+
+class _SumSafeProved:
+    """Sum.safe(e, R[, simplify]): wherever the sum of e over R is defined, the result is defined and denotes it.  Proved from
+    the body for R a Variable or a collection of Variables (strings are converted by Variable(...), outside the model); the
+    `simplify=True` path rests on the assumed contract of Sum.simplify.  TypeError iff a range is a counterfactual variable or an
+    intervention (Sum.__post_init__)."""
+    assumed = False
+    params = {"cls": ("const", None), "expression": "expr", "ranges": ("nodeset", "node"), "simplify": ("omit", "bool")}
+    allowed_raises = ("TypeError",)
+
+    def make_inputs(self, L, variant):
+        env, wf, probes = Contract.make_inputs(self, L, variant)
+        env["cls"] = "CLS"
+        return env, wf, probes
+
+    def adapt(self, ex, env):
+        from y0vc.values import VFunc
+        if env.get("cls") == "CLS":
+            env["cls"] = VFunc("class", ex.repo.resolve("y0.dsl.Sum"))
+        a = Contract.adapt(self, ex, env)
+        a.R = _ranges_set(ex, a.ranges)
+        return a
+
+    def raises(self, ex, a):
+        import z3
+        from y0vc.exprs import theory
+        L, T = ex.L, theory(ex)
+        bad = L.exists(1, lambda v: L.And(a.R.has(v), L.Or(L.is_cf(v), L.is_intervention(v))))
+        return {"TypeError": L.And(bad, T.cls(a.expression.t) != T.CL["Zero"])}
+
+    def post(self, ex, a, res):
+        import z3
+        from y0vc.exprs import VExpr, theory
+        T = theory(ex)
+        if not isinstance(res, VExpr):
+            return {"type": ex.L.F()}
+        sv, oks = T.sumv(T.set_to_array(a.R), a.expression.t)
+        return {"ok": z3.Implies(oks, T.ok(res.t)), "den": z3.Implies(oks, T.den(res.t) == sv)}
+
+
+_c = REGISTRY["y0.dsl.Sum.safe"]
+for _k in ("assumed", "params", "allowed_raises", "make_inputs", "adapt", "raises", "post"):
+    setattr(type(_c), _k, _SumSafeProved.__dict__[_k])
+type(_c).__doc__ = _SumSafeProved.__doc__
+
+
+def _base_image(ex, R):
+    """{ r.get_base() : r in R }"""
+    from y0vc.values import VSet
+    L = ex.L
+    b_, _, _ = L.var_algebra()
+    return VSet(lambda x: L.exists(1, lambda r: L.And(R.has(r), x == b_(r))))
+
+
+class _MargProved:
+    """e.marginalize(R) denotes the sum of e over the base variables of R, wherever that sum is defined."""
+    assumed = False
+    params = {"self": "expr", "ranges": ("nodeset", "node")}
+    allowed_raises = ("TypeError",)
+
+    def adapt(self, ex, env):
+        a = Contract.adapt(self, ex, env)
+        a.R = _base_image(ex, _ranges_set(ex, a.ranges))
+        return a
+
+    def raises(self, ex, a):
+        # get_base() yields plain variables: Sum.__post_init__ cannot object
+        return {"TypeError": ex.L.F()}
+
+    def post(self, ex, a, res):
+        import z3
+        from y0vc.exprs import VExpr, theory
+        T = theory(ex)
+        if not isinstance(res, VExpr):
+            return {"type": ex.L.F()}
+        sv, oks = T.sumv(T.set_to_array(a.R), a.self.t)
+        return {"ok": z3.Implies(oks, T.ok(res.t)), "den": z3.Implies(oks, T.den(res.t) == sv)}
+
+    def result(self, ex, a):
+        import z3
+        from y0vc.exprs import VExpr, theory
+        T = theory(ex)
+        sv, oks = T.sumv(T.set_to_array(a.R), a.self.t)
+        r = T.fresh("marg")
+        ex.assume(z3.Implies(oks, z3.And(T.ok(r), T.den(r) == sv)))
+        return VExpr(r)
+
+
+_c = REGISTRY["y0.dsl.Expression.marginalize"]
+for _k in ("assumed", "params", "allowed_raises", "adapt", "raises", "post", "result"):
+    setattr(type(_c), _k, _MargProved.__dict__[_k])
+type(_c).__doc__ = _MargProved.__doc__
+
+
+class _NormMargProved:
+    """e.normalize_marginalize(R) denotes e divided by its sum over the base variables of R, wherever e and that sum are defined
+    and the sum is not zero; ZeroDivisionError only when the sum denotes zero (or is undefined)."""
+    assumed = False
+    params = {"self": "expr", "ranges": ("nodeset", "node")}
+    allowed_raises = ("ZeroDivisionError",)
+    raises_exact = False
+
+    def adapt(self, ex, env):
+        a = Contract.adapt(self, ex, env)
+        a.R = _base_image(ex, _ranges_set(ex, a.ranges))
+        return a
+
+    def _parts(self, ex, a):
+        import z3
+        from y0vc.exprs import theory
+        T = theory(ex)
+        sv, oks = T.sumv(T.set_to_array(a.R), a.self.t)
+        return z3.And(T.ok(a.self.t), oks, sv != 0), T.den(a.self.t) / sv
+
+    def raises(self, ex, a):
+        import z3
+        return {"ZeroDivisionError": z3.Not(self._parts(ex, a)[0])}
+
+    def post(self, ex, a, res):
+        import z3
+        from y0vc.exprs import VExpr, theory
+        T = theory(ex)
+        if not isinstance(res, VExpr):
+            return {"type": ex.L.F()}
+        pre_ok, want = self._parts(ex, a)
+        return {"ok": z3.Implies(pre_ok, T.ok(res.t)), "den": z3.Implies(pre_ok, T.den(res.t) == want)}
+
+
+_c = REGISTRY["y0.dsl.Expression.normalize_marginalize"]
+for _k in ("assumed", "params", "allowed_raises", "raises_exact", "adapt", "_parts", "raises", "post"):
+    setattr(type(_c), _k, _NormMargProved.__dict__[_k])
+type(_c).__doc__ = _NormMargProved.__doc__
+
+
+for _q in ("y0.dsl.Sum.safe", "y0.dsl.Expression.marginalize", "y0.dsl.Expression.normalize_marginalize"):
+    type(REGISTRY[_q]).wide_runtime = True
